@@ -22,11 +22,15 @@ def _nondet_real(tag):
 
 
 def _isfinite(I, args, kw):
-    # reals are always finite under A-REAL
-    return VBool(True)
+    # reals are always finite under A-REAL; the python-side constant VNaN is the one non-finite float
+    return VBool(not isinstance(args[0], VNaN))
 
 
 def _isnan(I, args, kw):
+    return VBool(isinstance(args[0], VNaN))
+
+
+def _isinf(I, args, kw):
     return VBool(False)
 
 
@@ -50,27 +54,540 @@ def _json_loads(I, args, kw):
     return I.fresh_value(TDyn, "json_value")
 
 
+def _np_asarray(I, args, kw):
+    """numpy.asarray(v, dtype=...) on an opaque vector value: the same abstract vector (the float32 cast is part of
+    the numeric layer that the contracts treat as uninterpreted)."""
+    I.ver.note_assumption("numpy.asarray(v, dtype) returns the same abstract vector value (numerics are uninterpreted)")
+    v = args[0]
+    if isinstance(v, VOpt) and I.spec:
+        return v.val()
+    return I.force(v)
+
+
+def _np_stack(I, args, kw):
+    """numpy.stack(list of vectors, axis=0): an opaque matrix value, a function of the list of (abstract) vectors"""
+    xs = args[0] if I.spec else I.force(args[0])
+    if not isinstance(xs, VSeq):
+        raise Unsupported("numpy.stack of %s" % type(xs).__name__)
+    t = xs.t
+    f = z3.Function("np_stack_" + "".join(c if c.isalnum() else "_" for c in t.name), t.sort(), TUn("NpMat").sort())
+    I.ver.note_assumption("numpy.stack / numpy.mean are uninterpreted functions of their (abstract) arguments")
+    return VUn(f(unwrap(xs, t)), TUn("NpMat"))
+
+
+def _np_mean(I, args, kw):
+    """numpy.mean(matrix, axis=0): an opaque vector (sort Vec), a function of the abstract matrix"""
+    m = args[0] if I.spec else I.force(args[0])
+    if not (isinstance(m, VUn) and m.t.nm == "NpMat"):
+        raise Unsupported("numpy.mean of %s" % type(m).__name__)
+    f = z3.Function("np_mean_axis0", TUn("NpMat").sort(), TUn("Vec").sort())
+    return VUn(f(m.e), TUn("Vec"))
+
+
+def _defaultdict(I, args, kw):
+    """collections.defaultdict(float) / defaultdict(int): an empty dict whose missing keys read as 0 (and are inserted
+    by the read).  The element types come from the declared local type of the variable it is assigned to."""
+    if len(args) != 1 or not isinstance(args[0], VClass) or args[0].name not in ("float", "int"):
+        raise Unsupported("defaultdict with a factory other than float/int")
+    d = VDictRec({})
+    d.default_value = VReal(0) if args[0].name == "float" else VInt(0)
+    return d
+
+
+def _heappush(I, args, kw):
+    """heapq.heappush(h, x): trusted multiset model -- the heap list is kept as a list in *some* order (the heap
+    layout is never observed except through heappop / nsmallest / len): x is added."""
+    h = I.force(args[0])
+    if not isinstance(h, VSeq):
+        raise Unsupported("heappush on %s (declare the heap's element type)" % type(h).__name__)
+    I.ver.note_assumption("heapq: the heap is a multiset kept in a list; heappop removes and returns a minimum "
+                          "(python tuple order), heappush adds, nsmallest(n, h) = the n least in ascending order")
+    h.arr = z3.Store(h.arr, h.n, unwrap(args[1], h.et))
+    h.n = z3.simplify(h.n + 1)
+    h.writeback()
+    return VNone()
+
+
+def _heappop(I, args, kw):
+    """heapq.heappop(h): IndexError on an empty heap; otherwise removes one occurrence of a least element (tuple
+    order) and returns it; every other element stays (named array, pointwise facts with triggers)."""
+    h = I.force(args[0])
+    if not isinstance(h, VSeq):
+        raise Unsupported("heappop on %s" % type(h).__name__)
+    I.require_defined(h.n > 0, "IndexError", "index out of range")
+    p = I.path
+    m = p.fresh("heap_min_at", z3.IntSort())
+    i = z3.Int("hp_i")
+    old, n0 = h.arr, h.n
+    p.assume(z3.And(0 <= m, m < n0))
+    least = h.et.wrap(z3.Select(old, m))
+    el = h.et.wrap(z3.Select(old, i))
+    p.assume(z3.ForAll([i], z3.Implies(z3.And(0 <= i, i < n0), I.lt(least, el, False)), patterns=[z3.Select(old, i)]))
+    res = I.fresh_value(TList(h.et), "heap")
+    p.assume(res.n == n0 - 1)
+    p.assume(z3.ForAll([i], z3.Implies(z3.And(0 <= i, i < res.n),
+                                      z3.Select(res.arr, i) == z3.If(i < m, z3.Select(old, i), z3.Select(old, i + 1))),
+                       patterns=[z3.Select(res.arr, i)]))
+    p.assume(z3.ForAll([i], z3.Implies(z3.And(0 <= i, i < n0, i != m),
+                                      z3.Select(res.arr, z3.If(i < m, i, i - 1)) == z3.Select(old, i)),
+                       patterns=[z3.Select(old, i)]))
+    h.arr, h.n = res.arr, res.n
+    h.writeback()
+    g = getattr(I, "ghost_env", None)
+    if g is not None and "heap_pops" in g.vars:
+        g.vars["heap_pops"] = VInt(to_int(g.vars["heap_pops"]) + 1)     # ghost: number of heappop calls so far
+    return least
+
+
+def _nsmallest(I, args, kw):
+    """heapq.nsmallest(n, h) (no key): the min(max(n, 0), len(h)) least elements in ascending order = a prefix of
+    sorted(h) (trusted sorted() model: stable permutation ordered by python tuple order)"""
+    if kw:
+        raise Unsupported("heapq.nsmallest(key=...)")
+    n = to_int(I.force(args[0]))
+    h = I.force(args[1])
+    if isinstance(h, B.VEmptyList):
+        return h
+    if not isinstance(h, VSeq):
+        raise Unsupported("nsmallest over %s" % type(h).__name__)
+    r = B.sort_seq(I, VSeq(h.arr, h.n, h.et, "list"), None)
+    k = z3.If(n < 0, 0, z3.If(n > r.n, r.n, n))
+    return VSeq(r.arr, z3.simplify(k), r.et, "list")
+
+
+def _heapify(I, args, kw):
+    """heapq.heapify(h): rearranges h in place into heap order -- a no-op in the multiset model (the layout of the
+    list is never observed except through heappop / nsmallest / len)"""
+    h = I.force(args[0])
+    if not isinstance(h, (VSeq, B.VEmptyList)):
+        raise Unsupported("heapify of %s" % type(h).__name__)
+    return VNone()
+
+
+def _timedelta(I, args, kw):
+    """datetime.timedelta(days=, seconds=): a duration in seconds on the real line.  Datetimes are modelled as
+    real numbers (UTC seconds); datetime - timedelta and datetime comparisons are then ordinary arithmetic."""
+    I.ver.note_assumption("datetimes are points on the real time line (UTC seconds); timedelta(days=n) == 86400*n")
+    days = kw.get("days", args[0] if args else VInt(0))
+    secs = kw.get("seconds", args[1] if len(args) > 1 else VInt(0))
+    return VReal(to_real(I.force(days)) * 86400 + to_real(I.force(secs)))
+
+# ---------------------------------------------------------------- process environment / os.path / json / contextvars
+# (added for C16/C10: log writer and staging contracts)
+
+class VHook(V):
+    """python-side object whose attributes are builtin methods given by a table"""
+    t = None
+
+    def __init__(self, tag, methods):
+        self.tag = tag
+        self.methods = methods
+
+    def get_attr(self, I, name):
+        if name in self.methods:
+            return VFunc("builtin", "%s.%s" % (self.tag, name), impl=self.methods[name])
+        return None
+
+
+def env_terms():
+    has = z3.Function("environ_has", z3.StringSort(), z3.BoolSort())
+    val = z3.Function("environ_val", z3.StringSort(), z3.StringSort())
+    return has, val
+
+
+def _environ_get(I, args, kw):
+    """os.environ.get(k[, d]): the process environment is an *unknown but fixed* mapping during one verified call
+    (environ_has / environ_val are uninterpreted functions of the variable name); nothing writes it."""
+    I.ver.note_assumption("os.environ is an arbitrary mapping that does not change during the verified call")
+    k = args[0]
+    if not isinstance(k, VStr):
+        raise Unsupported("os.environ.get with non-string key")
+    has, val = env_terms()
+    if len(args) > 1 and isinstance(args[1], VStr):
+        return VStr(z3.If(has(k.e), val(k.e), args[1].e))
+    if len(args) > 1 and not isinstance(args[1], VNone):
+        raise Unsupported("os.environ.get default of %s" % type(args[1]).__name__)
+    t = TOpt(TStr)
+    return VOpt(z3.If(has(k.e), t.some(val(k.e)), t.none()), t)
+
+
+def _str_uf(name, n):
+    return z3.Function(name, *([z3.StringSort()] * (n + 1)))
+
+
+def _basename(I, args, kw):
+    """os.path.basename: deterministic uninterpreted string function (no structural facts assumed)"""
+    a = I.to_str(args[0]) if not isinstance(args[0], VStr) else args[0]
+    return VStr(_str_uf("os_path_basename", 1)(a.e))
+
+
+def _path_join(I, args, kw):
+    """os.path.join(a, b): deterministic uninterpreted string function"""
+    if len(args) != 2:
+        raise Unsupported("os.path.join arity %d" % len(args))
+    xs = [x if isinstance(x, VStr) else I.to_str(x) for x in args]
+    return VStr(_str_uf("os_path_join", 2)(xs[0].e, xs[1].e))
+
+
+def _may_raise_oserror(tag):
+    def f(I, args, kw):
+        """OS call whose effect is outside the model: returns None or raises OSError"""
+        if I.spec:
+            return VNone()
+        b = I.path.fresh("oserr_" + tag, z3.BoolSort())
+        if I.path.branch(b):
+            raise PyRaise(VExc("OSError", [VStr(tag)], any_subclass=True))
+        return VNone()
+    return f
+
+
+def _dumps_tag(kw):
+    parts = []
+    for k in sorted(kw):
+        v = kw[k]
+        if k == "indent" or k == "default" or k == "cls":
+            raise Unsupported("json.dumps(%s=...)" % k)
+        if isinstance(v, VTuple):
+            c = tuple(const_of(x) for x in v.items)
+        else:
+            c = const_of(v)
+        if c is B._NOCONST or (isinstance(c, tuple) and any(x is B._NOCONST for x in c)):
+            raise Unsupported("json.dumps with symbolic option %s" % k)
+        parts.append("%s=%r" % (k, c))
+    return ";".join(parts)
+
+
+def _json_dumps(I, args, kw):
+    """json.dumps(x, **opts) without `indent`: a deterministic uninterpreted function of (x, opts) into strings.
+    Trusted fact: the output contains no raw LF / CR (control characters inside strings are escaped)."""
+    x = args[0]
+    tag = _dumps_tag(kw)
+    try:
+        t = typeof(x)
+    except TypeError:
+        # a value with no single encoding (literal dict of mixed values, heap objects): an arbitrary string per call
+        # (sound over-approximation of a deterministic function whose argument is not tracked), still without raw LF/CR
+        r = I.path.fresh("json_dumps_opaque", z3.StringSort())
+        I.path.assume(z3.And(z3.Not(z3.Contains(r, z3.StringVal("\n"))), z3.Not(z3.Contains(r, z3.StringVal("\r")))))
+        I.ver.note_assumption("json.dumps of an untracked python value: arbitrary string without raw LF/CR")
+        return VStr(r)
+    nm = "json_dumps<%s>_%s" % (tag, "".join(c if c.isalnum() else "_" for c in t.name))
+    f = z3.Function(nm, t.sort(), z3.StringSort())
+    r = f(unwrap(x, t))
+    I.path.assume(z3.And(z3.Not(z3.Contains(r, z3.StringVal("\n"))), z3.Not(z3.Contains(r, z3.StringVal("\r")))))
+    I.ver.note_assumption("json.dumps (no indent): uninterpreted deterministic function of (value, options); its output has no raw LF/CR")
+    return VStr(r)
+
+
+def _ctxvar(I, args, kw):
+    """contextvars.ContextVar(name, default=...): the current value lives in the contract's ghost variable
+    `ctx_<name>` (declare it with ghost={"ctx_<name>": (type, "any")}); get() reads it, set() writes it."""
+    name = const_of(args[0])
+    if not isinstance(name, str):
+        raise Unsupported("ContextVar with symbolic name")
+    gname = "ctx_" + name
+
+    def get(I2, a, k):
+        if a or k:
+            raise Unsupported("ContextVar.get(default)")
+        v = I2.ghost_env.lookup(gname)
+        if v is None:
+            raise Unsupported("ContextVar %s read: declare ghost %s in the contract" % (name, gname))
+        return v
+
+    def set_(I2, a, k):
+        if I2.ghost_env.lookup(gname) is None:
+            raise Unsupported("ContextVar %s written: declare ghost %s in the contract" % (name, gname))
+        I2.ghost_env.set(gname, a[0])
+        return VOpaque("ctx_token")
+
+    return VHook("ContextVar:" + name, {"get": get, "set": set_})
+
+
+def _open(I, args, kw):
+    """open(path, mode) for the log writers: every open / write is recorded in the ghost traces
+    `fs_opens: List[Tuple[str, str]]` and `fs_writes: List[Tuple[str, str, str]]` (path, mode, data) of the contract.
+    open and write may raise OSError; nothing else about the file system is modelled.  bytes == str (utf-8
+    encoding is treated as the identity on text)."""
+    opens = I.ghost_env.lookup("fs_opens")
+    writes = I.ghost_env.lookup("fs_writes")
+    if opens is None or writes is None:
+        raise Unsupported("open(): declare ghost fs_opens / fs_writes in the contract")
+    path = args[0] if isinstance(args[0], VStr) else I.to_str(args[0])
+    mode = args[1] if len(args) > 1 else kw.get("mode", VStr("r"))
+    _may_raise_oserror("open")(I, [], {})
+    B.seq_method(I, opens, "append", [VTuple([path, mode])], {})
+    I.ver.note_assumption("open()/write(): only the sequence of calls (path, mode, data) is modelled (ghost trace); "
+                          "one write() on an O_APPEND handle lands as one contiguous chunk (POSIX, assumed)")
+
+    def write(I2, a, k):
+        data = a[0]
+        if not isinstance(data, VStr):
+            raise Unsupported("file.write of %s" % type(data).__name__)
+        _may_raise_oserror("write")(I2, [], {})
+        B.seq_method(I2, writes, "append", [VTuple([path, mode, data])], {})
+        return VInt(z3.Length(data.e))
+
+    def noop(I2, a, k):
+        return VNone()
+
+    return VHook("file", {"write": write, "close": noop, "flush": noop})
+
+
+# ---- tiny private file-name model for scripts/rotate_logs.py (C16 rotation).  NOT the general file-system model
+# (pyvc/fsmodel.py is being built for C08); it only knows which names exist and what they hold:
+# ghost `rfs: Dict[str, Un[Blob]]` declared by the contract.
+
+def _rfs(I, what):
+    m = I.ghost_env.lookup("rfs")
+    if m is None:
+        raise Unsupported("%s: declare ghost rfs (Dict[str, Un[Blob]]) in the contract" % what)
+    return m
+
+
+def _as_path_str(I, v):
+    return v if isinstance(v, VStr) else I.to_str(v)
+
+
+def _path_exists(I, args, kw):
+    """os.path.exists(p) == p names a file in the ghost name space `rfs`"""
+    m = _rfs(I, "os.path.exists")
+    return VBool(z3.Select(m.dom, _as_path_str(I, args[0]).e))
+
+
+def _os_remove(I, args, kw):
+    """os.remove(p): FileNotFoundError when p is absent; otherwise removes exactly p, or fails with some other
+    OSError (permissions ...) leaving everything as it was"""
+    m = _rfs(I, "os.remove")
+    p = _as_path_str(I, args[0])
+    if not I.path.branch(z3.Select(m.dom, p.e)):
+        raise PyRaise(VExc("FileNotFoundError", [VStr("remove")]))
+    if I.path.branch(I.path.fresh("oserr_remove", z3.BoolSort())):
+        # PermissionError stands for every OSError that is not a FileNotFoundError
+        raise PyRaise(VExc("PermissionError", [VStr("remove")], any_subclass=True))
+    B.map_remove(I, m, p.e)
+    return VNone()
+
+
+def _pathlib_path(I, args, kw):
+    """pathlib.Path(s): a path object is identified with its string"""
+    if len(args) != 1:
+        raise Unsupported("Path() arity")
+    return _as_path_str(I, args[0])
+
+
+SPEC_FUNCS = {"env_get": _environ_get, "os_basename": _basename, "os_join": _path_join, "json_dumps": _json_dumps,
+              "open": _open}
+
+# ---------------------------------------------------------------- concurrent.futures (trusted model)
+
+def _callable_contract(I, fn):
+    fn = I.force(fn)
+    g = B.callable_un_func(I, fn) if isinstance(fn, VUn) else fn
+    if isinstance(g, VFunc) and g.kind == "param" and g.contract is not None:
+        return g
+    raise Unsupported("executor.submit of a callable without a declared function contract")
+
+
+def _tpe_submit(I, args, kw):
+    """ThreadPoolExecutor.submit(fn, *a) -> Future.   ASSUMED CONTRACT (not verified here):
+      * the pool invokes fn(*a) exactly once, some time between this submit and the delivery of the
+        future's result; Future.result() blocks until that invocation has finished and then returns its
+        value or re-raises the exception it raised -- whatever the order in which invocations complete;
+      * the invocation obeys fn's declared function contract, and its outcome does not depend on how the
+        pool interleaves it with the other submitted invocations (task independence / thread safety is a
+        precondition on the tasks, not something decided here).  Ghost `effects_before` of the contract are
+        executed at submission, i.e. they record *submission* order; contracts with post-call ghost effects
+        (whose relative order would be schedule dependent) are rejected.
+    The Future is a value {raised, value, exc_type, exc_msg} describing that outcome; nothing else about
+    timing (done(), as_completed order, ...) is modelled, so code whose result depends on completion order
+    cannot be verified with this model."""
+    if not args:
+        I.raise_exc("TypeError", "submit() missing fn")
+    g = _callable_contract(I, args[0])
+    c = g.contract
+    if c.effects or c.effects_exc:
+        raise Unsupported("executor.submit of a callable whose contract has post-call ghost effects")
+    if c.returns is None:
+        raise Unsupported("executor.submit of a callable without declared return type")
+    env = Env(getattr(I, "ghost_env", None), None)
+    rest = list(args[1:])
+    for i, pn in enumerate(c.params):
+        if i < len(rest):
+            env.set(pn, rest[i])
+        elif pn in kw:
+            env.set(pn, kw[pn])
+    if g.selfv is not None:
+        env.set("self_fn", g.selfv)
+    caller = I.cur_obl_prefix()
+    for nm, src in c.requires:
+        I.path.prove(I.eval_spec(src, env), "%s/submit:%s/pre:%s" % (caller, c.short, nm), "call-pre", where=src)
+    for st in c.effects_before:
+        I.exec_ghost(st, env)
+    rt = I.ver.types.parse(c.returns)
+    ft = future_type(rt)
+    raised = I.path.fresh("fut_raised", z3.BoolSort())
+    conds = [I.eval_spec(cond, env) for _, cond in c.raises_list() if cond is not None]
+    if not c.raises_list():
+        I.path.assume(z3.Not(raised))
+    elif len(conds) == len(c.raises_list()):
+        I.path.assume(z3.Implies(raised, z3.Or(conds)))
+    res = I.fresh_value(rt, "fut_value")
+    for nm, src in c.ensures:
+        I.path.assume(z3.Implies(z3.Not(raised), I.eval_spec(src, env, extra={"result": res})))
+    if c.exc_info is not None:
+        tn, msg = I.eval_spec_value(c.exc_info[0], env), I.eval_spec_value(c.exc_info[1], env)
+    else:
+        tn, msg = VStr(I.path.fresh("fut_exc_type", z3.StringSort())), VStr(I.path.fresh("fut_exc_msg", z3.StringSort()))
+    I.ver.note_assumption("ThreadPoolExecutor.submit/Future.result(): each submitted callable is invoked exactly once, "
+                          "result() returns its value or re-raises its exception independent of completion order; "
+                          "task outcomes do not depend on the interleaving (task independence assumed)")
+    return VRec({"raised": VBool(raised), "value": res, "exc_type": tn, "exc_msg": msg}, ft)
+
+
+def _future_result(I, fut, args, kw):
+    """Future.result(): value of the submitted invocation, or its exception re-raised (see _tpe_submit)"""
+    if I.path.branch(fut.fields["raised"].e):
+        ex = VExc("Exception", [], any_subclass=True)
+        ex.tname = fut.fields["exc_type"]
+        ex.msg = fut.fields["exc_msg"]
+        raise PyRaise(ex)
+    return fut.fields["value"]
+
+
+B.REC_METHODS[("Future_", "result")] = _future_result
+
+
+def _thread_pool_executor(I, args, kw):
+    """ThreadPoolExecutor(...): context manager with submit(); __exit__ waits for all submitted work
+    (no observable effect in this model).  max_workers only bounds concurrency and is not modelled."""
+    noop = VFunc("builtin", "shutdown", impl=lambda I2, a, k: VNone())
+    return B.VExt("ThreadPoolExecutor", {"submit": VFunc("builtin", "submit", impl=_tpe_submit), "shutdown": noop})
+
+
+def _hashlib_new(algo):
+    """Trusted model of hashlib.<algo>([data]): a hash object whose `hexdigest()` / `digest()` is an *uninterpreted
+    deterministic function* (`uf_<algo>_hex`, spec name `<algo>_hex`) of the concatenation of everything passed to the constructor and to
+    `update()` so far (bytes are modelled as the text they encode, see str.encode).  Nothing else is assumed (no
+    collision freedom, no length): equal inputs give equal digests, and the digest depends on nothing but the bytes fed
+    in.  `update` accepts bytes only (a str argument raises TypeError as in CPython is not modelled: every caller in
+    /repo passes `.encode(...)` results or bytes literals)."""
+    def f(I, args, kw):
+        state = {"buf": z3.StringVal("")}
+        # same symbol as the spec-level `R.uf("<algo>_hex", ["str"], "str")` (verifier.spec_name prefixes "uf_")
+        hexfn = z3.Function("uf_%s_hex" % algo, z3.StringSort(), z3.StringSort())
+        rawfn = z3.Function("uf_%s_raw" % algo, z3.StringSort(), z3.StringSort())
+
+        def feed(v):
+            v = I.force(v) if not I.spec else v
+            if not isinstance(v, VStr):
+                raise Unsupported("hashlib update with a non-bytes value (%s)" % type(v).__name__)
+            state["buf"] = z3.simplify(z3.Concat(state["buf"], v.e))
+
+        def update(I2, a, k):
+            feed(a[0])
+            return VNone()
+
+        def hexdigest(I2, a, k):
+            return VStr(hexfn(state["buf"]))
+
+        def digest(I2, a, k):
+            return VStr(rawfn(state["buf"]))
+        if args:
+            feed(args[0])
+        I.ver.note_assumption("hashlib.%s is an uninterpreted deterministic function of the bytes fed to it" % algo)
+        return VObj("hashlib.%s" % algo, {"update": VFunc("builtin", "update", impl=update),
+                                           "hexdigest": VFunc("builtin", "hexdigest", impl=hexdigest),
+                                           "digest": VFunc("builtin", "digest", impl=digest)}, None)
+    return f
+
+
+def _deepcopy(I, args, kw):
+    """copy.deepcopy(x): assumed contract = a structurally equal value sharing no mutable part with x.
+    Only modelled for the python-side JSON model (JObj trees), literal dicts and encodable containers."""
+    from . import jsontree
+    I.ver.note_assumption("copy.deepcopy returns a structurally equal value with fresh identities (trusted stdlib contract)")
+    return jsontree.deepcopy(I, I.force(args[0]))
+
+
 TABLE = {
+    ("numpy", "asarray"): _np_asarray,
+    ("collections", "defaultdict"): _defaultdict,
+    ("heapq", "heappush"): _heappush,
+    ("heapq", "heappop"): _heappop,
+    ("heapq", "nsmallest"): _nsmallest,
+    ("heapq", "heapify"): _heapify,
+    ("numpy", "stack"): _np_stack,
+    ("numpy", "mean"): _np_mean,
+    ("datetime", "timedelta"): _timedelta,
+    ("datetime", "now"): _nondet_real("datetime.now"),
+    ("copy", "deepcopy"): _deepcopy,
+    ("hashlib", "sha256"): _hashlib_new("sha256"),
+    ("concurrent", "ThreadPoolExecutor"): _thread_pool_executor,
+    ("os", "makedirs"): _may_raise_oserror("makedirs"),
+    ("os.path", "basename"): _basename,
+    ("os.path", "join"): _path_join,
+    ("os.path", "exists"): _path_exists,
+    ("os", "remove"): _os_remove,
+    ("pathlib", "Path"): _pathlib_path,
+    ("json", "dumps"): _json_dumps,
+    ("contextvars", "ContextVar"): _ctxvar,
     ("json", "loads"): _json_loads,
     ("math", "sqrt"): _sqrt,
     ("math", "isfinite"): _isfinite,
     ("math", "isnan"): _isnan,
-    ("math", "isinf"): _isnan,
+    ("math", "isinf"): _isinf,
     ("time", "time"): _nondet_real("time.time"),
     ("time", "perf_counter"): _nondet_real("time.perf_counter"),
     ("time", "monotonic"): _nondet_real("time.monotonic"),
     ("collections", "deque"): B.bi_deque,
 }
 
+from . import ext_listing   # abstract directory listing (snapshot discovery, C06): used only by contracts whose ghost
+                            # state declares `fs_listing` (see external_member)
+
 TYPING = {"Any", "Dict", "List", "Tuple", "Optional", "Callable", "Iterable", "Iterator", "Generic", "TypeVar",
           "Deque", "Hashable", "Protocol", "Literal", "TypedDict", "Union", "Set", "Sequence", "Mapping",
           "MutableMapping", "TYPE_CHECKING"}
 
 
+def _uses_fsmodel(ver):
+    c = getattr(ver, "cur", None)
+    if c is None:
+        return False
+    return bool(getattr(c, "fs_inv", None) or getattr(c, "fs_policy", None) or getattr(c, "fs_opts", None) or "fs" in getattr(c, "ghost", {}))
+
+
 def external_member(ver, modname, attr):
+    cur = getattr(ver, "cur", None)
+    if cur is not None and "fs_listing" in getattr(cur, "ghost", {}) and (modname or "", attr) in ext_listing.TABLE:
+        return VFunc("builtin", "%s.%s" % (modname, attr), impl=ext_listing.TABLE[(modname or "", attr)])
+    key0 = (modname.split(".")[0] if modname else "", attr)
+    from . import fsmodel
+    if _uses_fsmodel(ver):
+        if key0 in fsmodel.TABLE:
+            return VFunc("builtin", "%s.%s" % key0, impl=fsmodel.TABLE[key0])
+        if key0 in fsmodel.CONSTS:
+            return mk_const(fsmodel.CONSTS[key0])
+    if modname == "os" and attr == "environ":
+        return VHook("os.environ", {"get": _environ_get})
+    if modname == "os" and attr == "path":
+        return VModule("os.path", None)
+    if modname == "os.path" and ("os.path", attr) in TABLE:
+        return VFunc("builtin", "os.path.%s" % attr, impl=TABLE[("os.path", attr)])
+    full = (modname or "", attr)
+    if full in TABLE:
+        return VFunc("builtin", "%s.%s" % full, impl=TABLE[full])
     key = (modname.split(".")[0] if modname else "", attr)
-    if key in TABLE:
+    if key in TABLE and not (modname or "").startswith("os."):
         return VFunc("builtin", "%s.%s" % key, impl=TABLE[key])
+    if key in (("datetime", "datetime"), ("datetime", "timezone")):
+        # class used as a namespace only: datetime.datetime.now(tz) / datetime.timezone.utc
+        return VModule("datetime." + attr, None)
+    if key in fsmodel.TABLE:
+        return VFunc("builtin", "%s.%s" % key, impl=fsmodel.TABLE[key])
+    if key in fsmodel.CONSTS:
+        return mk_const(fsmodel.CONSTS[key])
     if key[0] == "collections" and attr == "OrderedDict":
         return VClass("OrderedDict")
     if key[0] in ("typing", "typing_extensions", "__future__", "dataclasses", "abc"):
